@@ -168,7 +168,8 @@ def build_ekf_sym(p, env, pn, sn, *, cse=True, k=None, max_dt=0.1, container="li
 
     process_noise = {st[c]: w(pn[c]) for c in p.control}
     sens = p.sympy_sensors(reverse=reverse_sensors)
-    sensor_noises = {key: {r: w(sn[key][r]) for r in sens[key]} for key in sens}
+    # the noise maps are bound by key: they are deliberately declared in the opposite order to the sensor / reading maps
+    sensor_noises = {key: {r: w(sn[key][r]) for r in reversed(list(sens[key]))} for key in reversed(list(sens))}
     cfg = python.Config(common_subexpression_elimination=cse, innovation_filtering=k, max_dt_sec=max_dt)
     return python.compile_ekf(p.ui_model(container, cal_container=cal_container), process_noise, sens, sensor_noises, calmap if calmap is not None else sym_calibration_map(p, env), config=cfg)
 
@@ -182,7 +183,7 @@ def build_ekf_float(p, vals, *, cse=True, k=None, max_dt=0.1, pn=None, sn=None, 
     sn = sn if sn is not None else p.sensor_noise
     process_noise = {st[c]: float(pn[c]) for c in p.control}
     sens = p.sympy_sensors()
-    sensor_noises = {key: {r: float(sn[key][r]) for r in sens[key]} for key in sens}
+    sensor_noises = {key: {r: float(sn[key][r]) for r in reversed(list(sens[key]))} for key in reversed(list(sens))}
     cfg = python.Config(common_subexpression_elimination=cse, innovation_filtering=k, max_dt_sec=max_dt)
     return python.compile_ekf(p.ui_model(), process_noise, sens, sensor_noises, calmap if calmap is not None else float_calibration_map(p, vals), config=cfg)
 
